@@ -23,47 +23,42 @@ def run(ctx):
     quick = ctx.quick()
     # ---- 1. model checking (in the background while behaviours are generated and replayed) -----------------
     if quick:
-        mcs = [("MC_Subs_q_start1.cfg", "mc-fixed-startup-races", 900)]
+        mcs = [("MC_Subs_q_start1.cfg", "mc-fixed-startup-races", 900), ("MC_Subs_f_hooks.cfg", "mc-fixed-startup-hooks", 900)]
     else:
         mcs = [("MC_Subs_q_start1.cfg", "mc-fixed-startup-races", 1800), ("MC_Subs_q_start.cfg", "mc-fixed-startup-races-all-start-outcomes", 2400),
                ("MC_Subs_q_diff.cfg", "mc-fixed-two-triggers-one-connection", 2400), ("MC_Subs_t_start2.cfg", "mc-fixed-startup-2-terminators", 3000),
-               ("MC_Subs_live.cfg", "mc-liveness", 2400)]
+               ("MC_Subs_f_hooks.cfg", "mc-fixed-startup-hooks", 1800), ("MC_Subs_live.cfg", "mc-liveness", 2400)]
     pool = ThreadPoolExecutor(max_workers=1)
     mc_future = pool.submit(sc.model_check, ctx, mcs, [("MC_Subs_asis_d6.cfg", ["NoStaleInit", "NoStaleDetach", "NoStaleUpdater", "NoLateInit"])])
     # ---- 2. generate -------------------------------------------------------------------------------------------
     batches = []
     totals = {}
+    jobs = []
     # (a) exhaustive: two subscribers of ONE trigger id, nothing sequential: subscribe / start goroutine / one client-side terminator
     #     (unsubscribe, remove client, shutdown) in every order - includes unsubscribe + re-subscribe with the same id while the
     #     first start goroutine is still on its way; once per scripted Start outcome (ok, fails, returns ctx.Err())
     for tag, modes in (("start-ok", "StartOK"), ("start-ctx", "StartCtx"), ("start-fail", "StartFail")):
-        s, n = sc.generate(ctx, tag, sc.gen_cfg(tag, MaxEvents=0, MaxTerm=1, MaxSrcTerm=0, StartModes=modes, CfgOK="CfgOne", SeqSetup="FALSE"), rng,
-                           cap=350 if quick else None, timeout=1200)
-        batches.append((tag, s))
-        totals[tag] = n
+        jobs.append((tag, sc.gen_cfg(tag, MaxEvents=0, MaxTerm=1, MaxSrcTerm=0, StartModes=modes, CfgOK="CfgOne", SeqSetup="FALSE"), dict(cap=350 if quick else None, timeout=1200)))
     if not quick:
         # (b) exhaustive: every sharing shape (same id / different ids on one connection) x every combination of Start outcomes
-        s, n = sc.generate(ctx, "start-all", sc.gen_cfg("start-all", MaxEvents=0, MaxTerm=1, MaxSrcTerm=0, StartModes="StartAll", CfgOK="CfgStart", SeqSetup="FALSE"),
-                           rng, cap=8000, timeout=3000)
-        batches.append(("start-all", s))
-        totals["start-all"] = n
+        jobs.append(("start-all", sc.gen_cfg("start-all", MaxEvents=0, MaxTerm=1, MaxSrcTerm=0, StartModes="StartAll", CfgOK="CfgStart", SeqSetup="FALSE"), dict(cap=6000, timeout=3000)))
     # (c) sampled: plus the source finishing (Complete / Error / Done, also from a second goroutine of a stale source), one event, 2 client-side terminators
-    s, n = sc.generate(ctx, "sim", sc.gen_cfg("sim", MaxEvents=1, MaxTerm=2, MaxSrcTerm=1, MaxHB=0, UseD="TRUE", StartModes="StartAll", CfgOK="CfgAll", SeqSetup="FALSE", AllowCloseSub="TRUE"),
-                       rng, simulate=2600 if quick else 10000, depth=400, timeout=2400, cap=1000 if quick else None)
-    batches.append(("sim", s))
-    totals["sim"] = n
+    jobs.append(("sim", sc.gen_cfg("sim", MaxEvents=1, MaxTerm=2, MaxSrcTerm=1, MaxHB=0, UseD="TRUE", StartModes="StartAll", CfgOK="CfgAll", SeqSetup="FALSE", AllowCloseSub="TRUE", Features="FeatHooks"), dict(simulate=2600 if quick else 8000, depth=400, timeout=2400, cap=1000 if quick else None)))
     # (d) sampled: sequential set-up, then events + heartbeat + terminators (clean-up after ordinary histories)
-    s, n = sc.generate(ctx, "sim-seq", sc.gen_cfg("sim-seq", MaxEvents=2, MaxTerm=2, MaxSrcTerm=1, MaxHB=1, UseD="FALSE", StartModes="StartAll", CfgOK="CfgAll", SeqSetup="TRUE"),
-                       rng, simulate=1000 if quick else 4000, depth=400, timeout=2400, cap=400 if quick else None)
-    batches.append(("sim-seq", s))
-    totals["sim-seq"] = n
+    jobs.append(("sim-seq", sc.gen_cfg("sim-seq", MaxEvents=2, MaxTerm=2, MaxSrcTerm=1, MaxHB=1, UseD="FALSE", StartModes="StartAll", CfgOK="CfgAll", SeqSetup="TRUE"), dict(simulate=1000 if quick else 4000, depth=400, timeout=2400, cap=400 if quick else None)))
+    # (d2) sampled: data source with start-up hooks (blocking hook of the creator before Start, hook goroutine of a joiner), every combination
+    #      of failing hooks, racing with one client-side terminator; nothing sequential
+    jobs.append(("hooks", sc.gen_cfg("hooks", MaxEvents=0, MaxTerm=1, MaxSrcTerm=0, StartModes="StartOK", CfgOK="CfgHooks", Features="FeatHooks",
+                                                SeqSetup="FALSE"), dict(simulate=800 if quick else 4000, depth=400, timeout=2400, cap=350 if quick else None)))
     # (e) sampled: three subscriber slots, nothing sequential (chains of re-subscription with the same id, a joiner arriving while
     #     the trigger is torn down), CloseSubscription from the source
-    s, n = sc.generate(ctx, "sim3", sc.gen_cfg("sim3", NS=3, MaxEvents=1, MaxTerm=2, MaxSrcTerm=1, MaxHB=0, UseD="FALSE", StartModes="StartOkCtx",
-                                               CfgOK="CfgThree", SeqSetup="FALSE", AllowCloseSub="TRUE"),
-                       rng, simulate=600 if quick else 5000, depth=500, timeout=2400, cap=400 if quick else None)
-    batches.append(("sim3", s))
-    totals["sim3"] = n
+    jobs.append(("sim3", sc.gen_cfg("sim3", NS=3, MaxEvents=1, MaxTerm=2, MaxSrcTerm=1, MaxHB=0, UseD="FALSE", StartModes="StartOkCtx",
+                                               CfgOK="CfgThree", SeqSetup="FALSE", AllowCloseSub="TRUE"), dict(simulate=600 if quick else 3000, depth=500, timeout=2400, cap=400 if quick else None)))
+    gen = sc.generate_all(ctx, jobs)
+    for tag, _, _ in jobs:
+        s, n = gen[tag]
+        batches.append((tag, s))
+        totals[tag] = n
     # ---- 3./4. replay + validate -------------------------------------------------------------------------------
     tot = sc.run_batches(ctx, PROP, binary, batches)
     mc_future.result()
@@ -87,6 +82,7 @@ def run(ctx):
         "invariants_on_traces": sc.INVS[PROP],
         "exhaustive": False,
         "exhaustive_families": ["start-ok", "start-ctx", "start-fail"] if not quick else [],
+        "sampled": "start-all capped, sim/sim-seq/hooks/sim3 are -simulate samples (seeded); thorough is a sample too, sized to stay under 30 min",
     })
     ctx.assumptions += [
         "schedules are forced at the verif hook points outside the locks and at the harness gates (Flush); code between two events of one goroutine is atomic with respect to the state it touches (hooks sit inside the protecting lock)",
